@@ -54,6 +54,13 @@ type Ping struct {
 }
 type Pong struct{ N int }
 type Other struct{ N int }
+
+// Agg is handled by an aggregating handler (treenode.go aggregate + dispatchHandler with
+// AggregateMessages), Chn goes to a registered channel (dispatchChannel): both paths take
+// peer-controlled values (sender token, message type) and are exercised for crashes,
+// leaks and hangs; the model treats these bodies as "decodable, not the Ping handler".
+type Agg struct{ N int }
+type Chn struct{ N int }
 type Marker struct{ N int }
 
 // ---- input language ---------------------------------------------------------------
@@ -157,7 +164,11 @@ type workerOut struct {
 
 type proto struct {
 	*onet.TreeNodeInstance
-	w *world
+	w  *world
+	ch chan struct {
+		*onet.TreeNode
+		Chn
+	}
 }
 
 var curWorld atomic.Value // *world
@@ -173,10 +184,23 @@ func newProto(n *onet.TreeNodeInstance) (onet.ProtocolInstance, error) {
 	if err := p.RegisterHandler(p.handlePing); err != nil {
 		return nil, err
 	}
+	if err := p.RegisterHandler(p.handleAgg); err != nil {
+		return nil, err
+	}
+	if err := p.RegisterChannel(&p.ch); err != nil {
+		return nil, err
+	}
 	return p, nil
 }
 
 func (p *proto) Start() error { return nil }
+
+func (p *proto) handleAgg(ms []struct {
+	*onet.TreeNode
+	Agg
+}) error {
+	return nil
+}
 
 func (p *proto) handlePing(m struct {
 	*onet.TreeNode
@@ -561,6 +585,12 @@ func (w *world) message(m *jmsg) (network.Message, network.MessageTypeID) {
 		case "other":
 			pm.MsgSlice, _ = network.Marshal(&Other{N: 1})
 			pm.MsgType = network.MessageType(&Other{})
+		case "agg":
+			pm.MsgSlice, _ = network.Marshal(&Agg{N: 1})
+			pm.MsgType = network.MessageType(&Agg{})
+		case "chan":
+			pm.MsgSlice, _ = network.Marshal(&Chn{N: 1})
+			pm.MsgType = network.MessageType(&Chn{})
 		default:
 			pm.MsgSlice = []byte{1, 2, 3, 4, 5, 6, 7, 8, 9, 10, 11, 12, 13, 14, 15, 16, 17, 18, 19, 20}
 			pm.MsgType = network.MessageType(&Ping{})
@@ -1246,7 +1276,7 @@ func msgTerm(m *jmsg) string {
 		switch m.B {
 		case "ping", "pingreply":
 			b = "BPing"
-		case "other":
+		case "other", "agg", "chan":
 			b = "BOther"
 		}
 		return fmt.Sprintf("(MProto %s %s %s)", optTok(m.From), optTok(m.To), b)
@@ -2037,7 +2067,7 @@ func (g *gen) envelope() jop {
 	}
 	switch g.rng.Intn(14) {
 	case 0, 1, 2, 3:
-		op.M = &jmsg{T: "proto", From: g.optToken(false), To: g.optToken(true), B: []string{"ping", "ping", "ping", "other", "garbage"}[g.rng.Intn(5)]}
+		op.M = &jmsg{T: "proto", From: g.optToken(false), To: g.optToken(true), B: []string{"ping", "ping", "ping", "other", "garbage", "agg", "agg", "chan"}[g.rng.Intn(8)]}
 	case 4, 5:
 		op.M = &jmsg{T: "reqtree", Tree: g.pick(0, 1, 1, 2, 3, 7), Ver: g.pick(0, 1, 1, 2)}
 	case 6, 7, 8:
@@ -2173,6 +2203,25 @@ func corpus() []interface{} {
 			recv(3, &jmsg{T: "config"}),
 			recv(3, &jmsg{T: "roster", RO: &jro{}}))
 	}
+	// aggregated and channel dispatch with peer-controlled sender tokens
+	for _, netMode := range []bool{false, true} {
+		var ops []jop
+		for _, st := range []struct {
+			tree, round, from int
+			b                 string
+		}{{2, 12, 2, "agg"}, {2, 12, 1, "agg"}, {2, 12, 9, "agg"}, {2, 12, 2, "agg"}, {2, 12, 2, "agg"},
+			{1, 11, 1, "agg"}, {1, 11, 2, "agg"}, {1, 11, 1, "chan"}, {1, 11, 9, "chan"}, {1, 11, 2, "chan"}, {2, 12, 2, "chan"}} {
+			k := legitTok(st.tree, st.round)
+			f := *k
+			f.Nd = st.from
+			ops = append(ops, recv(3, &jmsg{T: "proto", From: &f, To: k, B: st.b}))
+		}
+		ops = append(ops, recv(3, &jmsg{T: "proto", To: legitTok(1, 11), B: "agg"}), recv(3, &jmsg{T: "proto", To: legitTok(1, 11), B: "chan"}))
+		in := input{Name: "aggregate-and-channel", State: "midrun", Net: netMode, Ops: append(statePrefix("midrun"), legitResp(2))}
+		in.Ops = append(in.Ops, ops...)
+		in.Ops = append(in.Ops, canaries(netMode)...)
+		ins = append(ins, in)
+	}
 	// after the leak of F08 the server keeps running: what blocks and what does not
 	wedge := input{Name: "f08-wedge-continue", State: "idle", Continue: true, Ops: statePrefix("idle")}
 	wedge.Ops = append(wedge.Ops,
@@ -2194,7 +2243,7 @@ func main() {
 	if _, err := onet.GlobalProtocolRegister(protoName, newProto); err != nil {
 		panic(err)
 	}
-	network.RegisterMessages(&Ping{}, &Pong{}, &Other{}, &Marker{})
+	network.RegisterMessages(&Ping{}, &Pong{}, &Other{}, &Marker{}, &Agg{}, &Chn{})
 	if len(os.Args) > 1 && os.Args[1] == "-c07worker" {
 		workerMain()
 		return
